@@ -27,6 +27,32 @@ def reexec_with_fixed_hashseed():
         os.execve(sys.executable, [sys.executable] + sys.argv, env)
 
 
+class _FormatAndDrop(logging.Handler):
+    """What an application's handler does, minus the output: the message is
+    formatted (which calls repr() on the arguments); like StreamHandler, a
+    formatting error is swallowed."""
+    errors = 0
+
+    def createLock(self):
+        # no handler lock: under ThreadSim a thread may be parked inside
+        # repr() of a lomond object (a traced line) while formatting; a real
+        # lock held there would block the next logging thread for real
+        self.lock = None
+
+    def emit(self, record):
+        try:
+            record.getMessage()
+        except Exception:
+            _FormatAndDrop.errors += 1
+
+
+def set_debug_logging(on):
+    """One more configuration the runs vary: the application has enabled
+    DEBUG logging for the 'lomond' logger (off in most runs)."""
+    logging.getLogger('lomond').setLevel(
+        logging.DEBUG if on else logging.CRITICAL + 1)
+
+
 def setup():
     # the tree under test always wins over any installed copy
     if REPO not in sys.path:
@@ -35,7 +61,7 @@ def setup():
         sys.path.insert(0, VERIF_DIR)
     os.environ.setdefault('LOMOND_VERIF', '1')
     logger = logging.getLogger('lomond')
-    logger.handlers[:] = [logging.NullHandler()]
+    logger.handlers[:] = [_FormatAndDrop()]
     logger.propagate = False
     logger.setLevel(logging.CRITICAL + 1)
     # Parser <-> its coroutine form a cycle with __del__; collecting it at a
